@@ -4,6 +4,7 @@
 -/
 import HL.Lemmas.SemTok
 import HL.Lemmas.SemTokGeom
+import HL.Lemmas.SemTokPlace
 import HL.Lemmas.SemTokWitness
 import HL.Model.SemTokPinned
 import Std.Data.String.ToNat
@@ -186,96 +187,132 @@ theorem legend_ok (cls : Classes) (text : Bytes) (toks : List Token) :
   simp only [legendOk, absOf, h13, h2, Bool.and_eq_true, decide_eq_true_eq]
   exact ⟨this.1, this.2⟩
 
-/-- **ordered_disjoint_inline (partial).**  If the lexer's source extents are well-formed and
-    laid out in document order without overlap — in BYTES: `extentsB` — and the UTF-16 cursor
-    agrees with the UTF-16 lengths of the pieces of text that become tokens (`measB`; a fact
-    about rune boundaries), and every piece ends inside its line (`inlineB`: false only for a
-    comment that swallows the CR of a CRLF line end, the open finding crlf-comment-length),
-    then the semantic tokens are in document order, do not overlap, and stay inside their
-    lines — including the tag tokens cut out of comments.  No hypothesis mentions codes,
-    quoted commodities, trimmed text, characters outside the BMP or non-ASCII comment text any
-    more: those defects are repaired. -/
+/-! The hypotheses below are the LEXER'S CONTRACT about the token list it returns for the text
+    (the lexer is not modelled here; the driver evaluates them on every generated case, and they
+    hold on every one, including arbitrary byte strings):
+    `extentsB` — extents `[Pos.Offset, End.Offset)` lie inside the text and inside one line, a
+                 comment's value is its extent without the `;`, consecutive mapped tokens do not
+                 overlap and are on the same line iff the lexer says so (all in BYTES);
+    `cutsB`    — every extent starts and ends on a rune boundary of the text;
+    `lineOk`   — `Pos.Line` is one more than the number of line feeds before `Pos.Offset`.
+    None of them mentions token values (except a comment's), the lexer's rune columns, codes,
+    quoted commodities, white space, characters outside the BMP or non-ASCII text: the defects
+    those shapes triggered are repaired.  The one remaining guard is the CR of a CRLF line end
+    inside a comment (`devCrComment`, finding crlf-comment-length). -/
+
+/-- **ordered_disjoint.**  For every text and every lexer output that honours the contract, the
+    semantic tokens — including the tag tokens cut out of comments — are in document order and
+    do not overlap.  (No guard: CRLF line ends included.) -/
+theorem ordered_disjoint (cls : Classes) (text : Bytes) (toks : List Token)
+    (hx : extentsB text toks = true) (hc : cutsB text toks = true) :
+    orderedDisjoint ((tokenize cls text toks).map absOf) = true :=
+  have hx' : (mappedBody toks).all (extentOk text) = true ∧ chainB text (mappedBody toks) = true := by
+    simpa [extentsB] using hx
+  (tokGo_ordered cls text {} toks 0 0 hx'.1 hx'.2 (measAll_of_cuts cls text toks hx'.1 hc) (by
+      cases mappedBody toks with
+      | nil => trivial
+      | cons t r => simp only [Bound]; omega)).1
+
+/-- **ordered_disjoint_inline (partial).**  … and every token stays inside its line, provided
+    every piece of text that becomes a token ends inside its line (`inlineB`, in the cursor's
+    columns: false only for a comment that swallows the CR of a CRLF line end, the open
+    finding crlf-comment-length). -/
 theorem ordered_disjoint_inline_partial (cls : Classes) (text : Bytes) (toks : List Token)
     (lens : List Nat)
-    (hx : extentsB text toks = true) (hm : measB cls text toks = true)
+    (hx : extentsB text toks = true) (hc : cutsB text toks = true)
     (hi : inlineB lens cls text toks = true) :
     orderedDisjoint ((tokenize cls text toks).map absOf) = true ∧
     ∀ a ∈ (tokenize cls text toks).map absOf, inLine lens a = true :=
   have hx' : (mappedBody toks).all (extentOk text) = true ∧ chainB text (mappedBody toks) = true := by
     simpa [extentsB] using hx
-  ⟨(tokGo_ordered cls text {} toks 0 0 hx'.1 hx'.2 (measAll_of cls text toks hm) (by
-      cases mappedBody toks with
-      | nil => trivial
-      | cons t r => simp only [Bound]; omega)).1,
-   tokGo_inline cls text lens {} toks hx'.1 (measAll_of cls text toks hm) hi⟩
+  ⟨ordered_disjoint cls text toks hx hc,
+   tokGo_inline cls text lens {} toks hx'.1 (measAll_of_cuts cls text toks hx'.1 hc) hi⟩
 
 /-- **covers_lexeme (partial).**  A token that is not cut out of a comment covers exactly the
     lexeme of the lexer token it was made from (same line, same first and last UTF-16 unit, a
-    type of that kind, not empty), provided the lexer token's extent is well-formed
-    (`extentOk`), the lexer's line number and the cursor's column are the LSP position of the
-    lexeme's first byte (`placed`), and the token is not a comment whose value ends with the CR
-    of a CRLF line end (`devCrComment`, the one open finding).  (`hplain` is a case
-    distinction, not a guard: the tokens cut out of a comment are the subject of
-    `tag_tokens_placed`.) -/
+    type of that kind, not empty), whenever that lexer token honours the contract (`extentOk`,
+    `cutOk`, `lineOk`) and is not a comment whose value ends with the CR of a CRLF line end
+    (`devCrComment`, the one open finding).  (`hplain` is a case distinction, not a guard: the
+    tokens cut out of a comment are the subject of `tag_tokens_placed`.) -/
 theorem covers_lexeme_partial (cls : Classes) (text : Bytes) (toks : List Token)
     (s : SemToken) (t : Token) (h : (s, t) ∈ tokenizeSrc cls text toks)
     (hplain : t.ty = .comment → (extractTags cls text t).isEmpty = true)
-    (hx : extentOk text t = true) (hp : placed text t = true) (hcr : devCrComment t = false) :
+    (hx : extentOk text t = true) (hc : cutOk text t = true) (hl : lineOk text t = true)
+    (hcr : devCrComment t = false) :
     coversTok text t (absOf s) = true := by
   obtain ⟨c', hmem, _, _⟩ := tokGoSrc_mem cls text {} toks s t h
-  rcases stepTok_mem cls text c' t s hmem with ⟨hc, _, hne⟩ | ⟨semType, mods, hty, _, rfl, hnz, _⟩
-  · rw [hplain hc] at hne; cases hne
-  · exact plain_covers text t semType mods hty (extentP_of text t hx) hp hcr hnz
+  simp only [cutOk, Bool.and_eq_true] at hc
+  rcases stepTok_mem cls text c' t s hmem with ⟨hcm, _, hne⟩ | ⟨semType, mods, hty, _, rfl, hnz, _⟩
+  · rw [hplain hcm] at hne; cases hne
+  · exact plain_covers_cuts text t semType mods hty (extentP_of text t hx)
+      (cut_of_isCut hc.1) (cut_of_isCut hc.2) hl hcr hnz
 
-/-- **Tags.**  A token cut out of a comment sits on the comment's line at the cursor's column
-    of the first byte of a span of the comment text and has the span's UTF-16 length, where the
-    span is exactly `name:` for a name accepted by `isValidTagName` (type `tag`, length = UTF-16
-    length of the name + 1) or a non-empty tag value (type `tagValue`, length = UTF-16 length
-    of the value). -/
+/-- **Tags.**  A token cut out of a comment sits on the comment's line at the LSP character
+    of the first byte of a span of the comment text and has the UTF-16 length of that span,
+    where the span is exactly `name:` for a name accepted by `isValidTagName` (type `tag`) or a
+    non-empty tag value (type `tagValue`) — for every comment token that honours the contract,
+    CRLF line ends and non-ASCII text before the tag included. -/
 theorem tag_tokens_placed (cls : Classes) (text : Bytes) (toks : List Token)
     (s : SemToken) (t : Token) (h : (s, t) ∈ tokenizeSrc cls text toks)
     (htag : t.ty = .comment ∧ (extractTags cls text t).isEmpty = false)
-    (hx : extentOk text t = true) :
+    (hx : extentOk text t = true) (hc : cutOk text t = true) (hl : lineOk text t = true) :
     ∃ sp ∈ extractSpans cls t.val, SpanContent cls t.val sp ∧
-      absOf s = ⟨t.pos.line - 1, colAt text (t.pos.off + 1 + sp.off), sp.len16, sp.ty.toNat, 0⟩ := by
+      (absOf s).ty = sp.ty.toNat ∧ (absOf s).mods = 0 ∧
+      ((absOf s).line, (absOf s).start) = posOfOffset text (t.pos.off + 1 + sp.off) ∧
+      (absOf s).len = u16lenB (sliceB text (t.pos.off + 1 + sp.off) (t.pos.off + 1 + sp.off + sp.len)) := by
   obtain ⟨c', hmem, _, _⟩ := tokGoSrc_mem cls text {} toks s t h
   have he := extentP_of text t hx
+  simp only [cutOk, Bool.and_eq_true] at hc
   rcases stepTok_mem cls text c' t s hmem with ⟨_, hs, _⟩ | ⟨_, _, _, _, _, _, hpl⟩
   · simp only [extractTags, List.mem_map] at hs
     obtain ⟨sp, hsp, rfl⟩ := hs
-    refine ⟨sp, hsp, extractSpans_content cls t.val sp hsp, ?_⟩
-    have hc := extractSpans_content cls t.val sp hsp
-    obtain ⟨hi, hhi, hs, _⟩ := extractSpans_spec cls t.val
-    have h16 : sp.len16 < 2 ^ 32 := by
-      have hlen := he.cmtLen htag.1
-      have hsm := he.small
-      have hit := he.inText
-      rcases hc with ⟨_, name, _, hl, hl16, _⟩ | ⟨_, value, _, hl, hl16, _⟩
-      · have := u16lenB_le name
-        have hb := spansFrom_mem_le hs sp hsp
-        omega
-      · have := u16lenB_le value
-        have hb := spansFrom_mem_le hs sp hsp
-        omega
-    exact absOf_tagToken text t sp he h16
+    have hcont := extractSpans_content cls t.val sp hsp
+    have hm := tags_measured cls text t he htag.1 (cut_of_isCut hc.1) (cut_of_isCut hc.2) sp hsp
+    obtain ⟨hi, hhi, hsf, _⟩ := extractSpans_spec cls t.val
+    have hb := spansFrom_mem_le hsf sp hsp
+    have hlen := he.cmtLen htag.1
+    simp only [measured, Bool.and_eq_true, decide_eq_true_eq] at hm
+    have h16 : sp.len16 < 2 ^ 32 := by omega
+    refine ⟨sp, hsp, hcont, ?_⟩
+    rw [absOf_tagToken text t sp he h16]
+    refine ⟨rfl, rfl, ?_, ?_⟩
+    · -- position
+      have hraw := he.cmt htag.1
+      have hsemi : text[t.pos.off]? = some 0x3B := getElem?_slice_zero _ _ _ _ _ hraw
+      obtain ⟨_, hp1⟩ := cut_ascii text t.pos.off 0x3B hsemi (by decide)
+      have hval : sliceB text (t.pos.off + 1) t.stop.off = t.val := by
+        have := sliceB_sub text t.pos.off t.stop.off 1 t.val.length (by omega)
+        rw [show t.pos.off + 1 + t.val.length = t.stop.off by omega, hraw] at this
+        simpa using this
+      obtain ⟨c1, _⟩ := extractSpans_cutP cls t.val sp hsp
+      have hcut : Cut text (t.pos.off + 1 + sp.off) :=
+        cut_slice hp1 (cut_of_isCut hc.2) (by omega) (by rw [hval]; exact c1)
+      have h1 := posLine_same text t.pos.off (t.pos.off + 1 + sp.off) (by omega)
+        (noLfP_sub he.oneLine (Nat.le_refl _) (by omega))
+      have h2 := posCol_cut text _ hcut
+      simp only [lineOk, beq_iff_eq] at hl
+      rw [← hl, ← h1, ← h2]
+    · -- length
+      have hraw := he.cmt htag.1
+      have hval : sliceB text (t.pos.off + 1) t.stop.off = t.val := by
+        have := sliceB_sub text t.pos.off t.stop.off 1 t.val.length (by omega)
+        rw [show t.pos.off + 1 + t.val.length = t.stop.off by omega, hraw] at this
+        simpa using this
+      have := sliceB_sub text (t.pos.off + 1) t.stop.off sp.off sp.len (by omega)
+      rw [this, hval]
+      exact span_len16 cls t.val sp hcont
   · rw [hpl htag.1] at htag; cases htag.2
 
 /-- The provenance list is the token list. -/
 theorem tokenizeSrc_fst (cls : Classes) (text : Bytes) (toks : List Token) :
     (tokenizeSrc cls text toks).map (·.1) = tokenize cls text toks := tokGoSrc_fst cls text {} toks
 
-/-- Consequently the client decodes exactly the server's tokens (the guard of `encode_decode`
-    holds for every lexer output with well-formed extents and coherent UTF-16 measures). -/
-theorem encode_decode_tokenize_partial (cls : Classes) (text : Bytes) (toks : List Token)
-    (hx : extentsB text toks = true) (hm : measB cls text toks = true) :
-    decode (encodeTokens (tokenize cls text toks)) = (tokenize cls text toks).map absOf := by
-  have hx' : (mappedBody toks).all (extentOk text) = true ∧ chainB text (mappedBody toks) = true := by
-    simpa [extentsB] using hx
-  have ho := (tokGo_ordered cls text {} toks 0 0 hx'.1 hx'.2 (measAll_of cls text toks hm) (by
-      cases mappedBody toks with
-      | nil => trivial
-      | cons t r => simp only [Bound]; omega)).1
-  exact encode_decode _ (orderedDisjoint_weakly _ ho)
+/-- **encode_decode_tokenize.**  Consequently the client decodes exactly the server's tokens,
+    for every text and every lexer output that honours the contract (no guard). -/
+theorem encode_decode_tokenize (cls : Classes) (text : Bytes) (toks : List Token)
+    (hx : extentsB text toks = true) (hc : cutsB text toks = true) :
+    decode (encodeTokens (tokenize cls text toks)) = (tokenize cls text toks).map absOf :=
+  encode_decode _ (orderedDisjoint_weakly _ (ordered_disjoint cls text toks hx hc))
 
 /-- **Tag spans.**  Whatever the comment: every tag span is cut out exactly around `name:` for
     a name accepted by `isValidTagName`, every tag value span around a non-empty string, and the
@@ -293,11 +330,9 @@ theorem tag_spans_wellformed (cls : Classes) (comment : Bytes) :
     text, a tag after a skipped part). -/
 
 def hypsHold (text : Bytes) (toks : List Token) : Bool :=
-  extentsB text toks && measB Classes.ascii text toks &&
+  extentsB text toks && cutsB text toks &&
   inlineB (lineLens16 text) Classes.ascii text toks &&
-  (tokenizeSrc Classes.ascii text toks).all (fun st =>
-    (st.2.ty == .comment && !(extractTags Classes.ascii text st.2).isEmpty) ||
-    (placed text st.2 && !devCrComment st.2))
+  (mappedBody toks).all (fun t => lineOk text t && !devCrComment t)
 
 example : hypsHold W.cleanText W.cleanToks = true ∧
     (tokenize Classes.ascii W.cleanText W.cleanToks).length = 13 := by decide +kernel
@@ -309,11 +344,14 @@ example : hypsHold W.codeText W.codeToks = true ∧ hypsHold W.quotedText W.quot
 /-! ### The open deviation, on the real lexer's output for its witness text -/
 
 /-- `; note` + CRLF: the comment token is one unit longer than its line (its value ends with
-    the CR, `devCrComment`; the hypothesis `inlineB` is false). -/
+    the CR, `devCrComment`; the hypothesis `inlineB` is false) although the lexer's output
+    honours the contract. -/
 theorem crlf_comment_length_counterexample :
     (tokenizeSrc Classes.ascii W.crlfText W.crlfToks).any (fun st =>
       devCrComment st.2 && !inLine (lineLens16 W.crlfText) (absOf st.1)) = true ∧
-    inlineB (lineLens16 W.crlfText) Classes.ascii W.crlfText W.crlfToks = false := by decide +kernel
+    inlineB (lineLens16 W.crlfText) Classes.ascii W.crlfText W.crlfToks = false ∧
+    (extentsB W.crlfText W.crlfToks && cutsB W.crlfText W.crlfToks &&
+      (mappedBody W.crlfToks).all (lineOk W.crlfText)) = true := by decide +kernel
 
 /-! ### The repaired deviations: what the PINNED tokenizer (HL/Model/SemTokPinned.lean) did on
     the real lexer's output for each witness text, and what the repaired one does -/
